@@ -173,7 +173,9 @@ pub fn run_prop(ctx: &Ctx, sink: &mut Sink) {
         let names: Vec<&[u8]> = vec![b"caf\xe9.txt", b"\xff\xfe.txt", b"plain.txt", b"other.dat", b"\xe9"];
         for n in &names { std::fs::write(d.join(std::ffi::OsStr::from_bytes(n)), b"").unwrap(); }
         for (prim, kind, ic, pat) in [("-name", "n", false, "*.txt"), ("-name", "n", false, "caf?.txt"), ("-name", "n", false, "?*"), ("-iname", "n", true, "*.TXT"),
-                                      ("-name", "n", false, "*"), ("-name", "n", false, "?"), ("-name", "n", false, "[!a-z]*"), ("-path", "p", false, "d/*.txt"), ("-path", "p", false, "d/???.txt")] {
+                                      ("-name", "n", false, "*"), ("-name", "n", false, "?"), ("-name", "n", false, "[!a-z]*"), ("-path", "p", false, "d/*.txt"), ("-path", "p", false, "d/???.txt"),
+                                      // every spelling of the path tests, with and without case folding
+                                      ("-wholename", "p", false, "d/*.txt"), ("-iwholename", "p", true, "D/*.TXT"), ("-ipath", "p", true, "D/PLAIN.*"), ("-iwholename", "p", true, "d/OTHER.d?t"), ("-ilname", "l", true, "NOTHING")] {
             let args: Vec<String> = vec!["d".into(), "-mindepth".into(), "1".into(), prim.into(), pat.into(), "-print0".into()];
             let o = find_inproc(&errf, &args, std::time::SystemTime::now(), Some(&dir));
             let printed: Vec<Vec<u8>> = o.out.split(|b| *b == 0).filter(|x| !x.is_empty()).map(|x| x.to_vec()).collect();
@@ -216,7 +218,7 @@ pub fn run_prop(ctx: &Ctx, sink: &mut Sink) {
         }
         // the pattern for -path must cover the directory part
         let pat = if kind == "p" { format!("d/{p}") } else { p.clone() };
-        let prim = match (kind, ic) { ("n", false) => "-name", ("n", true) => "-iname", ("p", false) => "-path", ("p", true) => "-ipath", ("l", false) => "-lname", _ => "-ilname" };
+        let prim = match (kind, ic) { ("n", false) => "-name", ("n", true) => "-iname", ("p", false) => if rng.chance(1, 2) { "-path" } else { "-wholename" }, ("p", true) => if rng.chance(1, 2) { "-ipath" } else { "-iwholename" }, ("l", false) => "-lname", _ => "-ilname" };
         let args: Vec<String> = vec!["d".into(), "-mindepth".into(), "1".into(), prim.into(), pat.clone(), "-print0".into()];
         let o = find_inproc(&errf, &args, std::time::SystemTime::now(), Some(&dir));
         let printed: Vec<Vec<u8>> = o.out.split(|b| *b == 0).filter(|x| !x.is_empty()).map(|x| x.to_vec()).collect();
